@@ -200,6 +200,16 @@ def step (s : Sess) (toks : List String) : Sess × String :=
       let (w, cp) := s.w.addSub s.circs[a]! s.circs[b]!
       ({ s with w := w, handles := s.handles.push cp }, s!"h{s.handles.size}")
     | _, _ => bad
+  | ["adopt", h] =>
+    -- the nested copy a `sub` returned becomes addressable as a circuit of its own (the code: the handle `add()` returned is a
+    -- `CircuitCompositeOperation` one can keep adding to); its acquisition registry is an orphan, as for `copy`
+    match h.toNat? with
+    | some h =>
+      if h ≥ s.handles.size then bad else
+      if !(s.w.op s.handles[h]!).isComp then bad else
+      let (w, orphan) := s.w.newCircuit (.fixed 1)
+      ({ s with w := w, circs := s.circs.push s.handles[h]!, regs := s.regs.push orphan }, s!"c{s.circs.size}")
+    | none => bad
   | ["list", c] =>
     match c.toNat? with
     | some c => if c ≥ s.circs.size then bad else
